@@ -12,7 +12,6 @@ check('C16', 'symbolic execution of the MIR of Sanitizer::* with all inputs up t
       'trusted: python models of std str/String/char/iterator functions (validated against the native build on every run with the repo test literals and seeded random inputs), the alphabet class argument for code points outside ASCII+R, z3. separator none is outside the statement: only length bound/panic freedom (and, without max_length, leading-zero rule + idempotence).',
       'DESIGN.md §3, §7 C16')
 
-NA['C02'] = 'git extraction: the subject is std::process::Command("git") against a real object database over arbitrary DAGs; neither symbolic engine can execute a subprocess and a solver model of git would verify the model, not zerv (DESIGN §6)'
 NA['C14'] = 'environment independence quantifies over processes, time zones, locales and cwd; symbolic execution of functions has no process environment (DESIGN §6)'
 NA['C18'] = 'finite table comparison between python source and clap derive metadata plus process execution; nothing to decide symbolically, clap builder code is outside both engines (DESIGN §6)'
 
@@ -119,3 +118,12 @@ check('C03', 'symbolic execution of the MIR of both passes of the flow pipeline 
 for e in ENGINES:
     if e['name'] in ('msym', 'native-driver'):
         e['serves_properties'] = sorted(set(e['serves_properties']) | {'C03'})
+
+
+check('C02', 'symbolic execution of the MIR of GitVcs::get_vcs_data (tag selection, distance, facts) and vcs_data_to_zerv_vars with `git` replaced by a nondeterministic stub: tag placement, distance, times, branch and status text are solver variables; z3 decides per path that the reported base tag is admissible under the statement; counterexamples are rebuilt as real git repositories and replayed through the real extraction',
+      'PARTIAL. Decided: zerv\'s side of the extraction. `GitVcs::run_git_command` (the only place a git process is started) is replaced by a stub that answers each sub-command zerv issues (rev-list --topo-order, log --tags --no-walk, tag --points-at, rev-list --count, rev-parse, branch --show-current, log -1 --format=%ct, status --porcelain, show -s --format=%ct, rev-list -n 1) from a symbolic summary of a history: the commits of the topological order (1..3, thorough 1..5), one tagged commit unreachable from HEAD, and for every tag name of six menus (valid, invalid and two-format spellings; numeric vs lexicographic order; pre-releases; post/dev) a solver variable for where it points (absent / each commit / the unreachable commit). The real get_commits_in_topo_order, get_latest_tag, filter_only_valid_tags, parse_with_format_batch / auto-detect majority vote, find_max_version_tag (real Ord), calculate_distance, the fact getters and vcs_data_to_zerv_vars run from MIR. Obligations per path: the reported base tag is a highest-version valid tag (my validity patterns, my comparators) of the first commit of the order that carries a valid tag, tags on the unreachable commit never count, none valid -> no tag and NoTagsFound rather than a version; commit hash, g prefix, commit time, branch (detached -> none), dirty <=> non-empty status, distance, tag commit hash and tag time are passed through exactly into VcsData and into the variables (major/minor/patch from the tag). Any git sub-command without a stub makes the run inconclusive (exit 2), never a pass. Each run also checks the stub\'s contract assumptions (topological order shows children first, --tags --no-walk = tagged commits incl. annotated, --points-at, --count = |anc(HEAD) minus anc(tag)|, show-current, porcelain vs untracked/modified/staged/ignored) and the whole real extraction against an independent oracle on random real repositories with merges, annotated and lightweight tags, side branches and detached HEAD (quick 12+12, thorough 150+240). Not decided: git itself and the object database, repository discovery, shallow clones, git failures, histories beyond the summary bound.',
+      'trusted: the git sub-command contracts coded in harness/c02.py (validated on real repositories every run), the argument that first-valid-in-topological-order is a nearest validly tagged ancestor (DESIGN §7 C02), tracing macros disabled, python std models, z3.',
+      'DESIGN.md §7 C02')
+for e in ENGINES:
+    if e['name'] in ('msym', 'native-driver'):
+        e['serves_properties'] = sorted(set(e['serves_properties']) | {'C02'})
